@@ -108,3 +108,50 @@ LEVEL_TEXT = ('Theorems over ALL pattern lists, names and regex oracles: accept 
               "property predicate c08_ok is evaluated in Coq on the implementation's own answers.")
 LEVEL_NOTE = ('Trusted: Coq kernel + vm_compute; Python re as oracle (answers shipped per case); harness generators and '
               'literal printer. End-to-end use of the predicate by -t/-m/--layer is exercised by the world checks (C03).')
+
+
+# ---------------------------------------------------------------------------------------------------------------
+# the use sites: the same pattern semantics must hold where the runner consults the predicate — for --module in
+# find_suites (on the full dotted module name, package prefix of a --package-path mount included) and for --test in
+# tests_from_suite (on str(test)).  Same case type and checker as the main batch; only the way the answers are obtained differs.
+class UseSites:
+    CHK = CHK
+    LABEL = 'use-sites'
+    RULE = ('use-site batch: non-empty pattern lists (incl. patterns that mention the package prefix) given as -m options and answered '
+            'by find_suites with a mounted package, and as -t options answered by tests_from_suite')
+    EXHAUSTIVE = {}
+    SEGS = ['a', 'b', 'ab', 'ba', 'c', 'xay.b', 'tests', 'sub.tests']
+
+    def generate(self, rng, tier, rep):
+        n = {'quick': 150, 'thorough': 1500, 'search': 200}[tier]
+        alpha = [p for p in ALPHA + EXTRA if p not in ('',)] + ['^pk', 'pk\\.a', '!^pk\\.b', '^a', '!^sub', 'pk.sub']
+        cases = []
+        for _ in range(n):
+            ps = [rng.choice(alpha) for _ in range(rng.randint(1, 4))]
+            names = ['pk.' + s for s in rng.sample(self.SEGS, 5)]
+            c = mk(ps, rng, names)
+            c['perm'] = c['perm'] or list(ps)
+            cases.append(c)
+            rep.count('use_site_len=%d' % len(ps))
+        return cases
+
+    def observe(self, cases):
+        chunks = [cases[i:i + 200] for i in range(0, len(cases), 200)]
+        out = []
+        for r in fw.parallel_map(lambda ch: fw.run_py('impl_c08_use.py', ch), chunks):
+            out.extend(r)
+        return out
+
+    def to_coq(self, c, o):
+        return to_coq(c, o)
+
+    def nontrivial(self, c):
+        return nontrivial(c)
+
+    def shrink_candidates(self, c):
+        for d in shrink_candidates(c):
+            if d['pats'] and d['perm']:
+                yield d
+
+
+EXTRA_BATCHES = [UseSites()]
